@@ -177,7 +177,7 @@ CFG = dict(
                "the last diagnostics published for each open document are the lint of its latest text under the latest configuration "
                "at zero-based positions, and the edit returned by a formatting request, applied per the LSP specification, yields "
                "exactly the fix. lint and fix are oracles (Section variables). C20_format_legacy_refuted and C20_legacy_templater_refuted witness the "
-               "two defects repaired by 5cb16fb and 0c9ce0f. The model is tied to crates/lsp/src/lib.rs on every run by event-by-event comparison on histories.",
+               "two defects repaired by e932172 and 17cf9d4. The model is tied to crates/lsp/src/lib.rs on every run by event-by-event comparison on histories.",
     level_note="Trusted: Coq kernel; hand-written model (tie = sampled/exhaustive-bounded correspondence: ~41k histories quick, run as ~3.7k chains); the "
                "linter is an oracle tabulated by a fresh Linter per configuration file; serde/lsp-types (de)serialisation and the "
                "client's edit application are outside the model (the latter is specified in Gallina per LSP 3.17 and mirrored in the harness).",
